@@ -100,6 +100,18 @@ def wide_ops(ctx: Ctx, table: list) -> list[dict]:
                 # all 100 check digit pairs
                 for dd in range(100):
                     add(iban[:2] + f"{dd:02d}" + iban[4:])
+    # the aliases 00 / 01 / 99 of the canonical digits 97 / 98 / 02 leave remainder 1 too: never valid
+    import c02
+    for row in table:
+        if gen.row_classes(row) is None:
+            continue
+        cc = gen.cc_of(row)
+        for b in c02.bbans_for(row, rng, 0):
+            d = gen.check_digits(cc, b)
+            alias = {"97": "00", "98": "01", "02": "99"}.get(d)
+            if alias:
+                add(cc + alias + b, ENTRY)
+                add(cc + d + b)
     # every two-character prefix over [A-Za-z0-9] on three bodies
     bodies = [r for r in table if gen.cc_of(r) in ("DE", "GB", "NO")]
     chars = string.ascii_uppercase + string.digits + string.ascii_lowercase
